@@ -30,7 +30,7 @@ func main() {
 		"C02": {"one-packet", "cut1", "cut2", "cutmany", "fixed", "allcuts", "complete", "reads-1-byte", "reads-random", "header-split"},
 		"C03": {"history", "consumer", "one-packet"},
 		"C07": {"history", "cutmany", "fixed"},
-		"C10": {"malformed", "wire-fuzz"},
+		"C10": {"malformed", "malformed-continue", "wire-fuzz"},
 		"C11": {"one-packet", "cut1", "cutmany", "history", "history-register", "consumer"},
 		"C14": {"cut-offset", "reads-random-cut", "complete", "cut-timeout", "write-fail"},
 	}
